@@ -447,7 +447,7 @@ fn main() {
         // ---- signature
         let mut sig = ff.sig.clone();
         sig.asyncness = None;
-        let rw = ty::TyRw { u: &u };
+        let rw = ty::TyRw { u: &u, in_unit_ty: false };
         rw.rewrite_generics(&mut sig.generics);
         let mut prologue: Vec<Stmt> = vec![];
         let mut pre_raii: Vec<Raii> = vec![];
@@ -487,8 +487,13 @@ fn main() {
                     let mut pt = pt.clone();
                     pt.attrs.clear();
                     let mut tyv = (*pt.ty).clone();
-                    let mut rw2 = ty::TyRw { u: &u };
+                    let mut rw2 = ty::TyRw { u: &u, in_unit_ty: false };
                     rw2.visit_type_mut(&mut tyv);
+                    if let Pat::Ident(pi) = &*pt.pat {
+                        if let Some((_, t)) = fs.retype.iter().find(|(n, _)| pi.ident == n) {
+                            tyv = syn::parse_str(t).unwrap_or_else(|_| die("bad retype type"));
+                        }
+                    }
                     let is_fut = matches!(&tyv, Type::Path(p) if p.path.segments.last().map(|s| s.ident == "ExtFut").unwrap_or(false));
                     pt.ty = Box::new(tyv.clone());
                     // `mut x: T` → `x: T` + `let mut x = x;`
@@ -546,7 +551,7 @@ fn main() {
             ReturnType::Default => parse_quote!(()),
             ReturnType::Type(_, t) => {
                 let mut tv = (**t).clone();
-                let mut rw2 = ty::TyRw { u: &u };
+                let mut rw2 = ty::TyRw { u: &u, in_unit_ty: false };
                 rw2.visit_type_mut(&mut tv);
                 tv
             }
